@@ -145,11 +145,14 @@ func VerifC07Select() {
 	nr := 1 + zv.Choose("nranges", zv.Param("ranges", 2))
 	digits := zv.Param("qdigits", 1)
 	acc := ""
+	var sent []string // the media ranges as sent (the oracle matches these, not the parser's rendering of them)
 	for k := 0; k < nr; k++ {
 		if k > 0 {
 			acc += ", "
 		}
-		acc += c07Ranges[zv.Choose("range", len(c07Ranges))] + c07QText("q"+string(rune('0'+k)), digits)
+		rg := c07Ranges[zv.Choose("range", len(c07Ranges))]
+		sent = append(sent, rg)
+		acc += rg + c07QText("q"+string(rune('0'+k)), digits)
 	}
 	r := c07Req("Accept", acc)
 	res := NegotiateContentType(r, offers, def)
@@ -164,8 +167,11 @@ func VerifC07Select() {
 		if k := strings.IndexByte(raw, ';'); k >= 0 {
 			offer = raw[:k]
 		}
-		for _, sp := range specs {
-			ok, s := c07Matches(sp.Value, offer)
+		for k, sp := range specs {
+			if k >= len(sent) {
+				break
+			}
+			ok, s := c07Matches(sent[k], offer)
 			if !ok || sp.Q == 0 {
 				continue
 			}
